@@ -1,13 +1,15 @@
 #!/bin/sh
-# tools/run_on_patch.sh <patch.diff> [props...]  -- run checks on a scratch copy of /repo's source with the patch applied
+# tools/run_on_patch.sh <patch.diff|-> [props...]  -- run checks on a scratch copy of /repo's committed source (HEAD)
+# with the patch applied ("-" = no patch); never touches /repo's working tree
 P="$1"; shift
 T=$(mktemp -d /tmp/rop_XXXXXX)
-cp -r /repo/AegeanTools /repo/scripts "$T"/ && cd "$T" && git init -q . && git apply "$P" || { echo "patch does not apply"; rm -rf "$T"; exit 3; }
+git -C /repo archive HEAD AegeanTools scripts | tar -x -C "$T" && cd "$T" && git init -q . || exit 3
+if [ "$P" != "-" ]; then git apply "$P" || { echo "patch does not apply"; rm -rf "$T"; exit 3; }; fi
 cd /verif
 PROPS="$@"; [ -z "$PROPS" ] && PROPS="C01 C02 C03 C04 C05 C06 C07 C08 C09 C10 C11 C12 C13 C14 C15 C16 C17 C18 C19 C20"
 for p in $PROPS; do
   AEGEAN_REPO="$T" AEGEAN_EVIDENCE_DIR="$T/ev" ./check $p > "$T/out_$p.txt" 2>&1; rc=$?
-  if [ $rc -ne 0 ]; then echo "== $p exit $rc"; grep -E "\[C[0-9]+-R|ANALYSIS-ERROR" "$T/out_$p.txt" | cut -c1-330 | head -6; fi
+  if [ $rc -ne 0 ]; then echo "== $p exit $rc"; grep -E "\[C[0-9]+-R|ANALYSIS-ERROR" "$T/out_$p.txt" | cut -c1-330 | head -6; else tail -1 "$T/out_$p.txt" | cut -c1-200; fi
 done
 rm -rf "$T"
 echo "run_on_patch done"
